@@ -19,7 +19,7 @@ Inductive fcall :=
 | FDstack (is : list nat) | FColumnStack (is : list nat)
 | FArraySplit (i parts : nat) (axis : option nat) | FSplit (i parts : nat) (axis : option nat) | FSplitAxis (i ax : nat)
 | FHsplit (i p : nat) | FVsplit (i p : nat) | FDsplit (i p : nat)
-| FSort (i : nat) (axis : option Z) (kind : res sort_kind) | FUnique (i : nat)
+| FSort (i : nat) (axis : option Z) (kind : res sort_kind) | FUnique (i : nat) (axis : option Z)
 | FAlong (i ax : nat) (f : arr T -> res (arr T))
 | FReduce (g1 : list T -> res T) (i : nat) (axis : option Z) | FScan (g : list T -> list T) (i : nat) (axis : option Z)
 | FMap (f : T -> T) (i : nat) | FLift2 (f : T -> T -> T) (i j : nat) | FZipop (f : T -> T -> T) (i j : nat)
@@ -59,7 +59,7 @@ Definition run_fcall (env : list (arr T)) (c : fcall) : res (list (arr T)) :=
   | FVsplit i p => many i (fun a => vsplit dflt a p)
   | FDsplit i p => many i (fun a => dsplit dflt a p)
   | FSort i axis kind => on i (fun a => sort_arr ltb dflt a axis kind)
-  | FUnique i => on i (unique1 ltb eqb)
+  | FUnique i axis => on i (fun a => unique_arr ltb eqb dflt a axis)
   | FAlong i ax f => on i (fun a => apply_along_axis dflt dflt a ax f)
   | FReduce g1 i axis => on i (fun a => reduce dflt g1 a axis)
   | FScan g i axis => on i (fun a => scan dflt g a axis)
